@@ -559,7 +559,9 @@ SPECS: Dict[str, Dict[str, Any]] = {
     "golang": dict(
         must_raw_forbidden=lambda d: {ord(d), 92, 10, 0, 0xFEFF},
         simple={"\\a": 7, "\\b": 8, "\\f": 12, "\\n": 10, "\\r": 13, "\\t": 9, "\\v": 11, "\\\\": 92, '\\"': 34},
-        numeric={"\\x": ("fixed", 2, 0xFF), "\\u": ("fixed", 4, 0xFFFF), "\\U": ("fixed", 8, MAXCP)},
+        # in Go, \\xHH (and \\ooo) denote a single BYTE of the string, not a code point: "\\x85" is the invalid one-byte string
+        # 0x85, not U+0085 (UTF-8 C2 85); they denote the character only below U+0080
+        numeric={"\\x": ("fixed", 2, 0x7F), "\\u": ("fixed", 4, 0xFFFF), "\\U": ("fixed", 8, MAXCP)},
         no_ucn_ranges=[(0xD800, 0xDFFF)],
         why={0: "Go source may not contain NUL", 0xFEFF: "a byte order mark inside Go source is rejected"},
     ),
